@@ -315,6 +315,62 @@ func sitesMain(w *out.W, tier string) {
 			nt(fmt.Sprintf("lk%d/%v", b, p), len(reg), p)
 		}
 	}
+	// ---- ta: State.toAttrs, observed through the remainder of the document: an unknown top-level
+	// block is kept as the *Resource that State.resource built (its Attrs = toAttrs' result)
+	type taDoc struct {
+		schemahcl.DefaultExtension
+	}
+	for b := 0; b < nb; b++ {
+		n := 1 + r.Intn(10)
+		if b < 8 {
+			n = 1 + b%4
+		}
+		seen := map[string]bool{}
+		var names []string
+		var vals []int
+		for len(names) < n {
+			s := fmt.Sprintf("%c%c%d", 'a'+rune(r.Intn(26)), 'a'+rune(r.Intn(26)), r.Intn(10))
+			if !seen[s] {
+				seen[s] = true
+				names = append(names, s)
+				vals = append(vals, r.Intn(5)) // 0 = null
+			}
+		}
+		for pi, p := range permsOf(r, n, k) {
+			id := fmt.Sprintf("ta%d.%d", b, pi)
+			var src strings.Builder
+			src.WriteString("thing \"x\" {\n")
+			for _, x := range p { // source order = the permutation (hclsyntax keeps attributes in a map anyway)
+				if vals[x] == 0 {
+					fmt.Fprintf(&src, "  %s = null\n", names[x])
+				} else {
+					fmt.Fprintf(&src, "  %s = %d\n", names[x], vals[x])
+				}
+			}
+			src.WriteString("}\n")
+			var d taDoc
+			obs := "ta error"
+			if err := schemahcl.New().EvalBytes([]byte(src.String()), &d, nil); err == nil && len(d.Extra.Children) == 1 {
+				var xs []string
+				for _, a := range d.Extra.Children[0].Attrs {
+					v, err := a.Int()
+					if err != nil {
+						xs = append(xs, hx(a.K)+"=?")
+						continue
+					}
+					xs = append(xs, fmt.Sprintf("%s=%d", hx(a.K), v))
+				}
+				obs = "ta " + strings.Join(xs, ",")
+			}
+			line := fmt.Sprintf("ta %d", n)
+			for _, x := range p {
+				line += fmt.Sprintf(" %s %d", hx(names[x]), vals[x])
+			}
+			w.Case(id, line, []string{obs})
+			w.Count("site:toAttrs")
+			nt(fmt.Sprintf("ta%d/%v", b, p), n, p)
+		}
+	}
 	_ = sort.Strings
 }
 
